@@ -472,7 +472,9 @@ CLAIMED.update(
             "from source with symbolic libcst terms; the lifted assertion must render to the same text. Nine shapes round-trip; the five that the parser cannot lift on the unchanged tree "
             "(pytest.approx, the type-name f-string, complex(...), attribute-path receivers for == and len) are known findings, any other failing shape is reported. The seed parser's "
             "per-function filter must consist of the FunctionDef test and the name-prefix test only (the exporter emits decorated xfail tests named test_<idx>), and the normaliser must "
-            "handle the exporter's import idiom. Round trip of ordinary statements against a test cluster is not decided.",
+            "handle the exporter's import idiom; every CST visitor of the deserializer that treats Names as variable references (collectors, the SUT-reference normaliser, the local renamer) "
+            "exempts the keyword of call arguments and the attribute name of attribute accesses, as its siblings do (cross-check of implementations walking the same trees). Round trip of "
+            "ordinary statements against a test cluster is not decided.",
             "Trusts sa/engine/peval.py, sa/engine/cstterm.py and the modelling of cst.parse_expression / code generation for names, attribute chains and literals.",
             "DESIGN.md §3 C24",
         ),
